@@ -15,17 +15,9 @@ hypothesis on the decision procedure, and why the instance for the real estimato
 for runs of at least `MIN_N_CHUNKS_PER_RANGE` chunks.
 -/
 import XetProps.C11
+import XetModel.DedupFirstLoop
 
 namespace Xet.Dedup
-
-/-- every slot the second loop of `process_chunks` consults holds a stored answer of at least `max 1 minN` chunks -/
-def coveredFrom (minN : Nat) : Nat → List DChunk → Answers → Bool
-  | 0, _, _ => true
-  | _, [], _ => true
-  | fuel+1, c :: rest, answers =>
-    match (answers.head?).join with
-    | some (n, _) => decide (1 ≤ n) && decide (minN ≤ n) && coveredFrom minN fuel ((c :: rest).drop n) (answers.drop n)
-    | none => false
 
 /-- what "nothing new was stored" means for one deduper -/
 structure NoNew (fd fd' : FD) : Prop where
@@ -198,6 +190,94 @@ theorem C11_repeat_needs_answers :
     ∃ (P : HashPrims) (c : DChunk),
       (finished P ⟨1000, 10⟩ Defrag.allowNext World.init [.call 0 ⟨[c], [none], 0, 0⟩, .done 0 [] Hash.zero]).sess.metrics.newBytes = 3 :=
   ⟨⟨fun _ => Hash.zero, fun _ => Hash.zero, fun _ => Hash.zero, fun _ _ => Hash.zero⟩, ⟨Hash.zero, [1, 2, 3]⟩, by decide⟩
+
+/-! ### the first loop of `process_chunks`: where the answers come from
+
+`firstPass q` is one pass of the first loop over the `deduped_blocks` slots of a call: a slot that already holds an answer is
+skipped together with the run it covers, otherwise the lookup interface is asked about the remaining hashes of the call
+(`chunk_hash_dedup_query(&chunk_hashes[i..])`) and its answer is stored at the slot.  (`n = 0` answers do not occur —
+truthful answers name at least the first chunk, C05 — and would keep the Rust loop from advancing; the model stops there.)
+The operation `dedup.firstpass` of suite `deduper` compares the positions this function queries, and the slots it leaves,
+with those of the real `FileDeduper` driven by a scripted interface. -/
+
+theorem firstPass_query (q : List Hash → Option (Nat × Shard.Seg)) (fuel : Nat) (c : DChunk) (rest : List DChunk)
+    (tl : Answers) (n : Nat) (s : Shard.Seg) (hq : q ((c :: rest).map (·.hash)) = some (n, s)) (hn : n ≠ 0) :
+    firstPass q (fuel + 1) (c :: rest) (none :: tl) =
+      some (n, s) :: tl.take (n - 1) ++ firstPass q fuel ((c :: rest).drop n) ((none :: tl).drop n) := by
+  have hq' : q (c.hash :: rest.map (·.hash)) = some (n, s) := by simpa using hq
+  simp [firstPass, hq', hn]
+
+theorem coveredFrom_some (minN fuel : Nat) (c : DChunk) (rest : List DChunk) (n : Nat) (s : Shard.Seg) (tl : Answers) :
+    coveredFrom minN (fuel + 1) (c :: rest) (some (n, s) :: tl) =
+      (decide (1 ≤ n) && decide (minN ≤ n) && coveredFrom minN fuel ((c :: rest).drop n) ((some (n, s) :: tl).drop n)) := by
+  simp [coveredFrom]
+
+/-- If the lookup interface answers every query whose first hash is known (`K`) with a run of at least `max 1 minN` chunks
+    that fits the query, then one pass over fresh slots of a call all of whose chunks are known leaves every slot the second
+    loop consults answered. -/
+theorem firstPass_covered (q : List Hash → Option (Nat × Shard.Seg)) (K : Hash → Prop) (minN : Nat)
+    (hq : ∀ (h : Hash) (rest : List Hash), K h →
+      ∃ n s, q (h :: rest) = some (n, s) ∧ 1 ≤ n ∧ minN ≤ n ∧ n ≤ rest.length + 1)
+    (fuel : Nat) (chunks : List DChunk) (hk : ∀ c ∈ chunks, K c.hash) :
+    coveredFrom minN fuel chunks (firstPass q fuel chunks (List.replicate chunks.length none)) = true := by
+  induction fuel generalizing chunks with
+  | zero => simp [coveredFrom]
+  | succ fuel ih =>
+    cases chunks with
+    | nil => simp [coveredFrom]
+    | cons c rest =>
+      obtain ⟨n, s, hqs, h1, hmin, hle⟩ := hq c.hash (rest.map (·.hash)) (hk c (by simp))
+      have hn0 : n ≠ 0 := by omega
+      have hslots : (List.replicate (c :: rest).length (none : Option (Nat × Shard.Seg))) =
+          none :: List.replicate rest.length none := by simp [List.replicate_succ]
+      have hdrop : (none :: List.replicate rest.length (none : Option (Nat × Shard.Seg))).drop n =
+          List.replicate ((c :: rest).drop n).length none := by
+        obtain ⟨m, rfl⟩ : ∃ m, n = m + 1 := ⟨n - 1, by omega⟩
+        simp [List.drop_replicate]
+      have hrec := ih ((c :: rest).drop n) (fun x hx => hk x (List.mem_of_mem_drop hx))
+      rw [hslots, firstPass_query q fuel c rest _ n s (by simpa using hqs) hn0, hdrop, List.cons_append, coveredFrom_some]
+      simp only [decide_eq_true h1, decide_eq_true hmin, Bool.true_and]
+      have hlen : ((List.replicate rest.length (none : Option (Nat × Shard.Seg))).take (n - 1)).length = n - 1 := by
+        simp only [List.length_take, List.length_replicate, List.length_map] at hle ⊢; omega
+      have : (some (n, s) :: ((List.replicate rest.length none).take (n - 1) ++
+          firstPass q fuel ((c :: rest).drop n) (List.replicate ((c :: rest).drop n).length none))).drop n =
+          firstPass q fuel ((c :: rest).drop n) (List.replicate ((c :: rest).drop n).length none) := by
+        obtain ⟨m, rfl⟩ : ∃ m, n = m + 1 := ⟨n - 1, by omega⟩
+        simp only [List.drop_succ_cons, Nat.add_sub_cancel] at hlen ⊢
+        rw [List.drop_append_of_le_length (by omega), List.drop_of_length_le (by omega), List.nil_append]
+      rw [this]
+      exact hrec
+
+/-- a history whose calls get their answers from one pass of the first loop over fresh slots -/
+def LookupHistory (q : List Hash → Option (Nat × Shard.Seg)) (K : Hash → Prop) (evs : List Ev) : Prop :=
+  ∀ e ∈ evs, match e with
+    | .call _ k => k.answers = firstPass q (k.chunks.length + 1) k.chunks (List.replicate k.chunks.length none) ∧
+        ∀ c ∈ k.chunks, K c.hash
+    | .done _ _ _ => True
+
+/-- **C11_repeat_free_lookup** — the composition at the interface the manager theorems speak about: if the session's lookup
+    interface answers every query that starts with a known chunk (run of at least `max 1 minN` chunks, inside the query), every
+    chunk fed to the session is known, and the defrag procedure accepts runs of at least `minN` chunks, then the finalized
+    session hands no xorb to the store and reports `new_bytes = 0`. -/
+theorem C11_repeat_free_lookup (P : HashPrims) (L : Limits) (allow : Defrag → Nat → Decision) (minN : Nat)
+    (hallow : ∀ (d : Defrag) (n : Nat), minN ≤ n → (allow d n).allow = true)
+    (q : List Hash → Option (Nat × Shard.Seg)) (K : Hash → Prop)
+    (hq : ∀ (h : Hash) (rest : List Hash), K h →
+      ∃ n s, q (h :: rest) = some (n, s) ∧ 1 ≤ n ∧ minN ≤ n ∧ n ≤ rest.length + 1)
+    (evs : List Ev) (he : LookupHistory q K evs) :
+    (finished P L allow World.init evs).sess.puts = [] ∧
+    (finished P L allow World.init evs).sess.metrics.newBytes = 0 ∧
+    (finished P L allow World.init evs).sess.metrics.newChunks = 0 := by
+  apply C11_repeat_free P L allow minN hallow evs
+  intro e hmem
+  have h := he e hmem
+  cases e with
+  | call id k =>
+    simp only at h ⊢
+    unfold CoveredCall
+    rw [h.1]
+    exact firstPass_covered q K minN hq _ _ h.2
+  | done _ _ _ => trivial
 
 /-! ### non-vacuity: a covered history exists, and the session it describes is not empty -/
 
